@@ -384,7 +384,7 @@ func genSpec(extreme bool) *rapid.Generator[*fontSpec] {
 			}
 		}
 
-		s.WidthMode = weighted(t, "WidthMode", 1, 2, 2, 2, 2, 1, 2, 1)
+		s.WidthMode = weighted(t, "WidthMode", 1, 2, 2, 2, 2, 1, 2, 1, 1)
 		s.WidthSeed = rapid.Uint64().Draw(t, "WidthSeed")
 		s.WidthBase = rapid.OneOf(
 			rapid.SampledFrom([]float64{0, 500, 600, 1000, 250.5, 333.333, 999.99998474121094, 0.0000152587890625}),
